@@ -21,13 +21,13 @@ BAD_KINDS = ['rows', 'length', 'words', 'type_traces', 'type_data', 'float_data'
 
 
 RULE = {
-    'C01': 'seeded histories: (kind, precision, trace dtype over its full range, data dtype, memory layout C/F/strided, regime, word layout, class list) x ordered partition of up to 1000 rows into batches x '
+    'C01': 'seeded histories: (kind, precision, trace dtype over its full range, data dtype, memory layout C/F/strided, regime, word layout incl. 17-300 and 4096 words, class list incl. 131-256 classes, traces of 1-35 or 257-700 samples, a few non-finite cells in the float regime, caller-recycled batch buffer) x ordered partition of up to 1000 (a few: 3000) rows into batches x '
            'compute()/compute-twice positions x clock script x worker-count changes; a case is non-trivial when it has >= 2 accepted '
            'batches; distinct = distinct (kind, precision, dtype, regime, op-kind sequence with batch lengths)',
     'C11': 'one seeded history executed under 4-8 environments (scripted process_time => kernel schedule; worker-count sequence); '
            'non-trivial when the environments really differ (>= 2 distinct executed kernel sequences or worker sequences); '
            'distinct = distinct (kind, precision, dtype, regime, set of executed kernel sequences, batch lengths)',
-    'C16': 'C01 histories with 1-3 refused update() calls inserted at any position incl. first (13 refusal kinds incl. low memory, 1-D traces, float16 traces refused inside the compiled kernel, decoy-range first batch for automatic class sets, MIA with automatic bin edges); '
+    'C16': 'C01 histories with 1-3 refused update() calls inserted at any position incl. first (15 refusal kinds incl. low memory, 1-D / 3-D traces, float16 traces refused inside the compiled kernel, samples that cannot be converted to numbers, decoy range / decoy trace length / decoy word layout of a refused first batch, MIA with automatic bin edges); '
            'non-trivial when a refusal fired or >= 2 batches; distinct = distinct (kind, precision, dtype, regime, op sequence, refusal kinds)',
 }
 SIM_TIME_UNIT = {'C01': 'simulated CPU seconds (scripted process_time)', 'C11': 'simulated CPU seconds (scripted process_time)',
